@@ -149,13 +149,17 @@ static std::string GenNumericSubject(vh::Rng & g, const rw::Pattern & p)
    default: base = g.R(40); break;
    }
    std::string s = NumStr(base);
-   const uint32_t form = g.R(20);
-   if (form < 11) return s;                                            // pure digits
-   if (form < 14) return std::string(1 + g.R(3), '0') + s;             // leading zeros
-   if (form < 17) { static const char * junk[] = {"abc", " ", "-", ".5", "x", ",", ">", "-3", "e1"}; return s + junk[g.R(9)]; }   // digit prefix, then something else
-   if (form < 19) { static const char * lead[] = {" ", "+", "-", "x", "<", "~"}; return std::string(lead[g.R(6)]) + s; }          // not digit-leading: unspecified
-   if (form == 19) return g.R(2) ? "" : (g.R(2) ? "99999999999" : "4294967296");
-   return s;
+   const uint32_t form = g.R(24);
+   if (form < 10) return s;                                            // pure digits
+   if (form < 13) return std::string(1 + g.R(3), '0') + s;             // leading zeros: still a representation of the integer
+   // everything below is not a digit string: must not match (must match under ~), whatever strtoul/atoi would make of it
+   if (form < 15) { static const char * junk[] = {"abc", "x", "-", ".5", ",", ">", "-3", "e1", ".", "L", "u"}; return s + junk[g.R(11)]; }            // digits + letters/punctuation
+   if (form < 17) { static const char * sign[] = {"+", "-", "+0", "-0", "++", "+-"}; return std::string(sign[g.R(6)]) + s; }                          // sign + digits
+   if (form < 19) { static const char * ws[] = {" ", "\t", "\n", "  ", "\r", "\v", "\f", " +", "\t-"}; return std::string(ws[g.R(9)]) + s; }              // white space (+ sign) + digits
+   if (form < 20) { static const char * ws[] = {" ", "\t", "\n", " 1"}; return s + ws[g.R(4)]; }                                                       // digits + white space
+   if (form < 21) { static const char * lead[] = {"x", "<", "~", "0x", "#", "\xe9"}; return std::string(lead[g.R(6)]) + s; }                            // letters / punctuation + digits
+   if (form < 22) { static const char * words[] = {"", "abc", "+", "-", " ", "x1y", "--", "\t"}; return words[g.R(8)]; }                               // empty, letters, a lone sign
+   return g.R(2) ? "99999999999" : (g.R(2) ? "4294967296" : "00004294967296");                                                                    // beyond uint32: unspecified
 }
 static std::string RandomString(vh::Rng & g, const std::string & alpha, uint32_t maxLen) { std::string t; const uint32_t n = g.R(maxLen + 1); for (uint32_t i = 0; i < n; i++) t.push_back(Pick(g, alpha)); return t; }
 static void OneEdit(vh::Rng & g, std::string & t, const std::string & alpha)
@@ -180,6 +184,7 @@ static int Want(const rw::Pattern & p, const std::string & subject)
 {
    const char * corner = rw::NumericCorner(p, subject);
    if (corner) { vh::stat(std::string("unspecified_numeric_") + corner); return 2; }
+   if (p.numeric && !rw::AllDigits(subject)) vh::stat("numeric_nondigit_subjects_judged");
    return rw::Match(p, subject) ? 1 : 0;
 }
 // its own stable key for the one known-unrepaired construct, so that everything else can be judged
@@ -526,8 +531,15 @@ static void Regress()
    { const int P = optPendingCaretFirst ? -1 : 0; if (P) vh::stat("pending_fix_rows", 6);
      RX("class-negated-caret-first", "[^^]", "a", P ? P : 1); RX("class-negated-caret-first", "[^^]", "^", P ? P : 0); RX("class-negated-caret-first", "[^^]?", "ab", P ? P : 1);
      RX("class-negated-caret-first", "[^^],x", "x", P ? P : 1); RX("class-negated-caret-first", "(a[^^]|b)", "ab", P ? P : 1); RX("class-negated-caret-first", "[^^a]*", "b.c", P ? P : 1); }
+   vh::begin_case(8);   // "<19-21> would match 19, 20, and 21 only": a subject that is not a digit string never matches a range list (seeded C15-3: strtoul)
+   RX("numeric-nondigit-subject", "<1-10>", "+5", 0); RX("numeric-nondigit-subject", "<1-10>", " 5", 0); RX("numeric-nondigit-subject", "<1-10>", "\t7", 0); RX("numeric-nondigit-subject", "<1-10>", "\n7", 0); RX("numeric-nondigit-subject", "<1-10>", "5 ", 0);
+   RX("numeric-nondigit-subject", "<1-10>", "-5", 0); RX("numeric-nondigit-subject", "<1-10>", "+05", 0); RX("numeric-nondigit-subject", "<1-10>", "0x5", 0); RX("numeric-nondigit-subject", "<1-10>", "5.0", 0); RX("numeric-nondigit-subject", "<1-10>", "", 0);
+   RX("numeric-nondigit-subject", "<1-10>", "abc", 0); RX("numeric-nondigit-subject", "<1-10>", "+", 0); RX("numeric-nondigit-subject", "<1-10>", " ", 0); RX("numeric-nondigit-subject", "<-10>", "-3", 0); RX("numeric-nondigit-subject", "<0>", "-0", 0); RX("numeric-nondigit-subject", "<0->", "", 0);
+   RX("numeric-nondigit-subject", "<4000000000->", "-3", 0); RX("numeric-nondigit-subject", "<4000000000->", "-1", 0); RX("numeric-nondigit-subject", "<4294967295>", "-1", 0);
+   RX("numeric-nondigit-subject", "~<1-10,20->", "+5", 1); RX("numeric-nondigit-subject", "~<1-10,20->", " 5", 1); RX("numeric-nondigit-subject", "~<1-10,20->", "", 1); RX("numeric-nondigit-subject", "~<1-10,20->", "abc", 1); RX("numeric-nondigit-subject", "~<1-10,20->", "5", 0); RX("numeric-nondigit-subject", "~<1-10,20->", "15", 1);
+   RX("numeric-nondigit-subject", "<1-10>", "5", 1); RX("numeric-nondigit-subject", "<1-10>", "005", 1); RX("numeric-nondigit-subject", "<->", "5", 1); RX("numeric-nondigit-subject", "<1-3,->", "77", 1); RX("numeric-nondigit-subject", "<->", "+5", -1); RX("numeric-nondigit-subject", "<1-3,->", "abc", -1);
    vh::begin_case(5);   // the probe table of 55 edge patterns; -1 = outside the documented syntax (scope guards of DESIGN.md C15): run, not judged
-   RX("edge-table", "<19-21>", " 20", -1); RX("edge-table", "<19-21>", "+20", -1); RX("edge-table", "<-5>", "3", 1); RX("edge-table", "<7->", "99999999999", -1); RX("edge-table", "<19-21,25>", "25", 1); RX("edge-table", "<19-21>", "", -1); RX("edge-table", "~<19-21>", "abc", -1);
+   RX("edge-table", "<19-21>", " 20", 0); RX("edge-table", "<19-21>", "+20", 0); RX("edge-table", "<-5>", "3", 1); RX("edge-table", "<7->", "99999999999", -1); RX("edge-table", "<19-21,25>", "25", 1); RX("edge-table", "<19-21>", "", 0); RX("edge-table", "~<19-21>", "abc", 1);
    RX("edge-table", "a,b", "a", 1); RX("edge-table", "a,b", "b", 1); RX("edge-table", "a,b", "a,b", 0); RX("edge-table", "a,b", "ab", 0); RX("edge-table", "a\\,b", "a,b", 1); RX("edge-table", "a\\,b", "a", 0); RX("edge-table", "(a|b)c", "bc", 1); RX("edge-table", "(a|b)c", "abc", 0);
    RX("edge-table", "a(b", "a(b", -1); RX("edge-table", "[abc", "a", -1); RX("edge-table", "a]", "a]", -1); RX("edge-table", "a)", "a)", -1);
    RX("edge-table", "a.b", "a.b", 1); RX("edge-table", "a.b", "axb", 0); RX("edge-table", "a+b", "a+b", 1); RX("edge-table", "a+b", "aab", 0);
